@@ -93,6 +93,21 @@ class SerBoom(Exception):
     pass
 
 
+class Unhashable(Exception):
+    """Value-comparable exception: defining __eq__ removes __hash__."""
+
+    def __eq__(self, other):
+        return isinstance(other, Unhashable) and self.args == other.args
+
+
+class StrRaises(Exception):
+    def __str__(self):
+        raise RuntimeError("no str for this exception")
+
+
+FAULT_EXC = [lambda what: IOError("flaky " + what), lambda what: Unhashable("u " + what), lambda what: StrRaises("s " + what), lambda what: StopIteration("stop " + what)]
+
+
 class Faults(object):
     """Solver-chosen fault injection shared by serializers, extractors and the flaky destination."""
 
@@ -112,12 +127,13 @@ class Faults(object):
 def body_E1(ctx):
     sh = ctx.shard
     faults = Faults(ctx, sh.get("F", 2))
+    mkexc = FAULT_EXC[int(sh.get("fault_exc", 0))]
     vname, vmake = HOSTILE[ctx.choose(len(HOSTILE), "value")]
     V = vmake()
 
     def ser(v):
         if faults.maybe("serializer"):
-            raise SerBoom("serializer")
+            raise mkexc("serializer")
         return v
 
     TM = MessageType("t:tm", [Field("x", ser, "")], "")
@@ -127,7 +143,7 @@ def body_E1(ctx):
 
     def extractor(e):
         if faults.maybe("extractor"):
-            raise SerBoom("extractor")
+            raise mkexc("extractor")
         if xkind:
             # keys that coincide with the message's own fields: must be tolerated, never raise
             return {"reason": "from extractor", "exception": "x.Y", "traceback": "tb", "message_type": "mt", "task_uuid": "tu", "payload": e.payload}
@@ -141,7 +157,7 @@ def body_E1(ctx):
         def __call__(self, m):
             Flaky.calls += 1
             if faults.maybe("destination"):
-                raise IOError("flaky")
+                raise mkexc("destination")
 
     sink = io.BytesIO()
     filedest = FileDestination(file=sink)
@@ -335,12 +351,12 @@ def L1(i: int, s: str) -> bool:
 def _e1_shards(tier):
     out = []
     if tier == "quick":
-        for ff in (1, 0):
-            base = {"calls": 1, "F": 2, "flaky_first": ff}
+        for ff, fe in ((1, 0), (0, 0), (1, 1), (1, 2), (0, 3)):
+            base = {"calls": 1, "F": 2, "flaky_first": ff, "fault_exc": fe}
             out += [dict(base, prefix=p) for p in enumerate_prefixes(body_E1, "X", {}, base, 1)]
         return out
-    for ff in (1, 0):
-        base = {"calls": 2, "F": 3 if ff else 2, "flaky_first": ff}
+    for ff, fe in ((1, 0), (0, 0), (1, 1), (0, 2)):
+        base = {"calls": 2, "F": 3 if (ff and not fe) else 2, "flaky_first": ff, "fault_exc": fe}
         out += [dict(base, prefix=p) for p in enumerate_prefixes(body_E1, "X", {}, base, 2)]
     return out
 
@@ -351,7 +367,7 @@ OBLIGATIONS = [
         E1,
         body_E1,
         "X",
-        desc="10 entry-point kinds x 12 hostile values x 2 extractor result shapes (plain / keys colliding with message fields) x fault masks over serializers/extractors/destination: no logging call raises, application exceptions and return values pass through",
+        desc="10 entry-point kinds x 12 hostile values x 2 extractor result shapes (plain / keys colliding with message fields) x fault masks over serializers/extractors/destination (faults raise IOError, an unhashable exception, an exception whose str() raises, or StopIteration): no logging call raises, application exceptions and return values pass through",
         functions=["Logger.write", "Destinations.send", "_safe_unicode_dictionary", "safeunicode", "saferepr", "ErrorExtraction.get_fields_for_exception", "write_traceback", "Action.finish", "Action.__exit__", "log_call", "MessageType.log", "ActionType.__call__", "Message.log", "Message.write", "FileDestination.__call__"],
         shards=_e1_shards,
         twin=[{"calls": 1, "F": 2, "flaky_first": 1, "twin_label": "two-faults"}],
